@@ -50,9 +50,10 @@ type (
 		Lo, Hi Expr
 	}
 	EQuant struct {
-		Forall bool
-		Vars   []QVar
-		Body   Expr
+		Forall   bool
+		Vars     []QVar
+		Body     Expr
+		Triggers []Expr
 	}
 )
 
@@ -253,8 +254,21 @@ func (p *parser) unary() Expr {
 			break
 		}
 		p.expectOp("::")
+		var trig []Expr
+		if p.isOp("{") { // explicit trigger terms: forall x :: {f(x), g(x)} body
+			p.next()
+			for {
+				trig = append(trig, p.expr(0))
+				if p.isOp(",") {
+					p.next()
+					continue
+				}
+				p.expectOp("}")
+				break
+			}
+		}
 		body := p.expr(0)
-		return &EQuant{t.text == "forall", vars, body}
+		return &EQuant{t.text == "forall", vars, body, trig}
 	}
 	return p.postfix(p.primary())
 }
